@@ -30,6 +30,8 @@ pub struct FileState {
     path: String,
     persister: Arc<PersisterKind>,
     encryptor: Option<Arc<EncryptorKind>>,
+    // Entries have to reach the file in the order of their indexes, so appending is serialized.
+    apply_lock: tokio::sync::Mutex<()>,
 }
 
 impl FileState {
@@ -47,6 +49,7 @@ impl FileState {
             path: path.into(),
             persister,
             encryptor,
+            apply_lock: tokio::sync::Mutex::new(()),
             version: version.get_numeric_version().expect("Invalid version"),
         }
     }
@@ -310,11 +313,15 @@ impl State for FileState {
 
     async fn apply(&self, user_id: u32, command: EntryCommand) -> Result<(), IggyError> {
         debug!("Applying state entry with command: {command}, user ID: {user_id}");
+        // The commands can be applied concurrently (e.g. by the handlers holding only the shared system lock):
+        // the index is taken and the entry is appended under the lock, and the index is consumed only
+        // when the entry has been appended, otherwise the file could get out of order or have gaps.
+        let _apply_guard = self.apply_lock.lock().await;
         let timestamp = IggyTimestamp::now();
         let index = if self.entries_count.load(Ordering::SeqCst) == 0 {
             0
         } else {
-            self.current_index.fetch_add(1, Ordering::SeqCst) + 1
+            self.current_index.load(Ordering::SeqCst) + 1
         };
         #[cfg(iggy_verif)]
         crate::verif::point("state.apply.allocated", index).await;
@@ -370,7 +377,6 @@ impl State for FileState {
             command,
         );
         let bytes = entry.to_bytes();
-        self.entries_count.fetch_add(1, Ordering::SeqCst);
         self.persister
             .append(&self.path, &bytes)
             .await
@@ -381,6 +387,8 @@ impl State for FileState {
                     bytes.len()
                 )
             })?;
+        self.current_index.store(index, Ordering::SeqCst);
+        self.entries_count.fetch_add(1, Ordering::SeqCst);
         #[cfg(iggy_verif)]
         crate::verif::point("state.apply.appended", index).await;
         debug!("Applied state entry: {entry}");
